@@ -48,6 +48,16 @@ def cases_for(ctx):
               "type T { f: [! }", "query($a: [!) {a}", "type T { f: [é] g: [[}", "﻿# é\n{ a }"]:
         tuples.append(("doc", None, 500, s))
     # the other two entries are lossless as well since the repairs: exercise them too
+    # lexically interesting material (the lexer generators of C03): every shape of number followed by every class of
+    # character, strings with every escape, block strings, comments and spreads -- alone and as an argument value;
+    # every byte of a malformed literal must still appear exactly once in the tree
+    from props import c03 as LX
+    lex = LX.gen_numbers()[:: 7 if quick else 1] + LX.gen_strings(ctx.rng, 300 if quick else 3000) \
+        + LX.gen_blocks(ctx.rng, 150 if quick else 1500) + LX.gen_comments_spreads()
+    for x in lex:
+        tuples.append(("doc", None, 500, x))
+    for x in lex[:: 3 if quick else 1]:
+        tuples.append(("doc", None, 500, "{ f(a: %s) }" % x))
     for e in ("selset", "type"):
         tuples += [(e, None, 500, s) for s in chars if len(s) <= 2]
         tuples += [(e, None, 500, s) for s in toks if s.count(" ") < 2]
